@@ -312,7 +312,13 @@ pub(crate) fn decimal_to_fmt<D: BinaryBuf>(
 
                         // If the decimal point is before the non-zero digits, and there
                         // aren't too many leading zeroes then write them directly.
-                        if leading_zeroes + "0.".len() <= DECIMAL_ZEROES.len() {
+                        //
+                        // The leading zeroes count as digits when the number is parsed again,
+                        // so they're only written if the result still fits the decimal's precision.
+                        if leading_zeroes + "0.".len() <= DECIMAL_ZEROES.len()
+                            && "0".len() + leading_zeroes + non_zero_digits
+                                <= decimal.precision_digits()
+                        {
                             // Write the leading zeroes along with the decimal point
                             write_content(
                                 &DECIMAL_ZEROES[..leading_zeroes + "0.".len()],
